@@ -2188,10 +2188,40 @@ def undo_function_renames(trees, ref=None, stats=None):
     for m, tree in trees.items():
         known = set(inv.get(m, []))
         cur = dict(top_functions(tree, m))
+        # whole classes that moved (every method of the reference class is gone from this module, the class is imported back)
+        gone_cls = {}
+        for v in [q for q in known if q not in cur and q.count(".") == 2]:
+            gone_cls.setdefault(v.split(".")[1], []).append(v)
+        for cname, vs in gone_cls.items():
+            if any(isinstance(c, ast.ClassDef) and c.name == cname for c in tree.body):
+                continue
+            imported = [(st, al) for st in tree.body if isinstance(st, ast.ImportFrom) and st.level >= 1 for al in st.names if (al.asname or al.name) == cname and al.name == cname]
+            if len(imported) != 1:
+                continue
+            st_imp, al = imported[0]
+            src_mod = (st_imp.module or "").split(".")[-1]
+            src = trees.get(src_mod)
+            if src is None or any(q.startswith(f"{src_mod}.{cname}.") for q in inv.get(src_mod, [])):
+                continue
+            cands = [c for c in src.body if isinstance(c, ast.ClassDef) and c.name == cname]
+            if len(cands) != 1:
+                continue
+            c = cands[0]
+            have = {f"{m}.{cname}.{f.name}" for f in c.body if isinstance(f, FUNC)}
+            if not set(vs) <= have or any(fingerprint(f) != fps.get(f"{m}.{cname}.{f.name}") for f in c.body if isinstance(f, FUNC) and f"{m}.{cname}.{f.name}" in fps):
+                continue
+            src.body.remove(c)
+            tree.body.append(c)
+            st_imp.names.remove(al)
+            if not st_imp.names:
+                tree.body.remove(st_imp)
+            if any(isinstance(n, ast.Name) and n.id == cname for x in src.body for n in ast.walk(x)):
+                # still used where it moved to: that module now imports it from its home
+                src.body.insert(0, ast.ImportFrom(module=m, names=[ast.alias(name=cname, asname=None)], level=1))
+            homed.append(f"class {src_mod}.{cname}->{m}.{cname}")
+        cur = dict(top_functions(tree, m))
         for v in [q for q in known if q not in cur and q.count(".") == 1 and q in fps]:
             vname = v.split(".")[1]
-            if not private(vname):
-                continue
             imported = [(st, al) for st in tree.body if isinstance(st, ast.ImportFrom) and st.level >= 1 for al in st.names if (al.asname or al.name) == vname]
             if len(imported) != 1:
                 continue
@@ -2205,11 +2235,13 @@ def undo_function_renames(trees, ref=None, stats=None):
                 continue
             f = cands[0]
             others = [t for mm, t in trees.items() if mm not in (m, src_mod)
-                      if any(isinstance(n, ast.alias) and n.name == al.name for n in ast.walk(t))]
+                      if any(isinstance(n, ast.ImportFrom) and (n.module or "").split(".")[-1] == src_mod and any(a_.name == al.name for a_ in n.names) for n in ast.walk(t))]
             used_at_home = any(isinstance(n, ast.Name) and n.id == al.name for x in src.body if x is not f for n in ast.walk(x))
-            if others or used_at_home:
+            if others:
                 continue
             src.body.remove(f)
+            if used_at_home:
+                src.body.insert(0, ast.ImportFrom(module=m, names=[ast.alias(name=al.name, asname=None)], level=1))
             f.name = vname
             tree.body.append(f)
             st_imp.names.remove(al)
